@@ -64,6 +64,8 @@ def run(idx, rep, tier):
     from . import c08
     c08.byline_keep(idx, rep, "R4")
     c08.byline_norun(idx, rep, "R5")
+    c08.r2(idx, K.as_rule(rep, "R3", keep=lambda k: "one fresh csvpath per member" in k))
+    imported_comment(idx, rep, "R6")
     # … and in a serial run: what a member kept is archived with its result however the member's run ended
     from . import c09, c12, c13
     c09.serial_unmatched(idx, rep, "R4")
@@ -84,10 +86,11 @@ def mode_value_tables(idx, rep, rid, classes=None):
         fu = idx.method(cls, "update")
         rep.analysed(fu, idx.method(cls, "value"))
         bad = None
+        base = K.instance_store(idx, cls)
         for mv, want in table:
             it = Interp(idx, types={"self": cls}, inline={f"{cls}.value"}, unknown_calls="error",
                         handlers={"self.controller.get": lambda i, c, r, a, k, mv=mv: (i.record_call("get", a[0]), mv)[1]})
-            ps = it.run_all(fu)
+            ps = it.run_all(fu, store=dict(base))
             if len(ps) != 1:
                 raise AnalysisError(f"{cls}.update is not deterministic ({len(ps)} paths)")
             p = ps[0]
@@ -102,6 +105,35 @@ def mode_value_tables(idx, rep, rid, classes=None):
                 if p.result[0] != "return" or got is not want:
                     bad = bad or f"{MODE_KEYS[cls]}: {mv!r} gives {got!r} ({p.result[0]}), docs/comments.md says {want!r}"
         rep.check(bad is None, rid, f"{fu.file}::{cls} value table", bad or f"{len(table)} values", K.where(fu, fu.node))
+        # the same on an instance with a history: parsed with the comment's value, then set by hand through the API (which writes the
+        # metadata), then parsed again — the comment is collected again and its value is the mode again
+        fset = idx.method(cls, "value.setter")
+        bad = None
+        for mv, want in table:
+            if want == "raise":
+                continue
+            for flip in (True, False):
+                meta = {"v": mv}
+                it = Interp(idx, types={"self": cls}, inline={f"{cls}.value"}, unknown_calls="residual",
+                            handlers={"self.controller.get": lambda i, c, r, a, k, meta=meta: meta["v"],
+                                      "self.controller.set": lambda i, c, r, a, k, meta=meta: meta.__setitem__("v", a[1])})
+
+                def program(i, mv=mv, flip=flip, meta=meta):
+                    i.call_function(fu, {"__pos__": []}, "self")
+                    first = i.store.get("self." + attr)
+                    i.call_function(fset, {"__pos__": [flip]}, "self")
+                    if mv is not None:
+                        meta["v"] = mv      # the next parse collects the comment again; a comment that says nothing leaves the API's setting
+                    i.call_function(fu, {"__pos__": []}, "self")
+                    return first, i.store.get("self." + attr)
+
+                ps = it.run_program(program, dict(base))
+                want2 = want if mv is not None else None
+                ok = len(ps) == 1 and ps[0].result[0] == "return" and ps[0].result[1][0] is want and (want2 is None or ps[0].result[1][1] is want2)
+                if not ok:
+                    bad = bad or (f"{MODE_KEYS[cls]}: {mv!r} parsed, then set to {flip} by hand, then the same csvpath parsed again: the mode is {[p.result for p in ps][:2]}, "
+                                  f"documented {(want, want)!r} (what the comment says, each time it is parsed)")
+        rep.check(bad is None, rid, f"{fu.file}::{cls} value after parse / set / parse", bad or f"{len(table)} values x 2", K.where(fu, fu.node))
 
 
 def r1(idx, rep):
@@ -162,13 +194,26 @@ def r2(idx, rep):
         raise AnalysisError(f"C15.R2: ModeController.__init__ is not a single normal path on the model ({[p.result for p in psi][:2]})")
     created = {k[5:]: v.name[4:] for k, v in psi[0].final_store.items() if k.startswith("self.") and isinstance(v, Obj) and v.name.startswith("new:")}
     # interpreted: which of the mode objects does update() refresh (however it walks them)
-    updated = []
-    itu = Interp(idx, types={"self": "ModeController"}, unknown_calls="residual", handlers={".update": lambda i, c, r, a, k: updated.append("self." + getattr(r, "name", getattr(r, "text", "?")))})
-    psu = itu.run_all(upd, store=dict({f"self.{a}": Obj(a) for a in created}, **K.instance_store(idx, "ModeController")) | {f"self.{a}": Obj(a) for a in created})
-    if len(psu) != 1 or psu[0].result[0] != "return":
-        raise AnalysisError(f"C15.R2: ModeController.update is not a single normal path on the model ({[p.result for p in psu][:2]})")
+    # … whatever the metadata holds: a csvpath without a comment (empty metadata) gets the same refresh as one with a comment that sets no
+    # mode, so that adding such a comment changes nothing
+    missing = {}
+    for label, md in (("a comment with a mode", {"return-mode": "no-matches", "id": "x"}), ("a comment without modes", {"description": "d"}), ("no comment (empty metadata)", {}),
+                      ("no metadata yet (None)", None)):
+        updated = []
+        itu = Interp(idx, types={"self": "ModeController"}, unknown_calls="residual", handlers={".update": lambda i, c, r, a, k, updated=updated: updated.append("self." + getattr(r, "name", getattr(r, "text", "?")))})
+        stu = dict(K.instance_store(idx, "ModeController"))
+        stu.update({f"self.{a}": Obj(a) for a in created})
+        stu["self.csvpath.metadata"] = md
+        psu = itu.run_all(upd, store=stu)
+        if len(psu) != 1 or psu[0].result[0] != "return":
+            raise AnalysisError(f"C15.R2: ModeController.update is not a single normal path on the model with {label} ({[p.result for p in psu][:2]})")
+        for attr in created:
+            if f"self.{attr}" not in updated:
+                missing.setdefault(attr, label)
     for attr, cls in created.items():
-        rep.check(f"self.{attr}" in updated, "R2", f"{ci.file}::ModeController.update updates {attr}", f"{cls} is created but never updated from the metadata: its setting would be ignored", K.where(upd, upd.node))
+        rep.check(attr not in missing, "R2", f"{ci.file}::ModeController.update updates {attr}",
+                  f"{cls} is created but not updated from the metadata with {missing.get(attr)}: its setting would be ignored, or a csvpath would behave differently with and without a comment",
+                  K.where(upd, upd.node))
     rep.floor("R2", 8, "mode objects")
     okm, listed = Interp(idx, types={}).lookup("ModeController.MODES")
     listed = list(listed) if okm and isinstance(listed, (list, tuple)) else []
@@ -383,3 +428,22 @@ def result_keeps_metadata(idx, rep, rid):
             if p.result[0] != "return" or got != want:
                 bad = bad or f"csvpath metadata {md} before its Result is built: {got} afterwards ({p.result[0]}), documented {want} (the run index names only a csvpath without an identity)"
     rep.check(bad is None, rid, f"{fi.file}::Result.__init__ leaves the comment's metadata alone", bad or "", K.where(fi, fi.node))
+
+
+def imported_comment(idx, rep, rid):
+    """the comment of a csvpath that is parsed on behalf of another (import(), parse_named_path) is that csvpath's: its metadata fields and
+    mode settings go to the instance created for it, and the importing csvpath's metadata is what its own comment says"""
+    fi = idx.method("CsvPath", "parse_named_path")
+    rep.analysed(fi)
+    seen = []
+    it = Interp(idx, types={"self": "CsvPath"}, unknown_calls="residual",
+                handlers={"CsvPath": lambda i, c, r, a, k: Obj("NEWCP"), "MetadataParser": lambda i, c, r, a, k: (seen.append(("parser for", a[0] if a else k.get("csvpath"))), Obj("MP"))[1],
+                          "MP.extract_metadata": lambda i, c, r, a, k: (seen.append(("metadata into", k.get("instance", a[0] if a else None))), "PATH")[1],
+                          "self._pick_named_path": lambda i, c, r, a, k: "~ id: helper ~ $[*][yes()]"},
+                domains={"self.csvpaths": [Obj("CPS")]})
+    ps = it.run_all(fi, args={"name": "n", "disposably": True, "specific": None}, store={"self.metadata": {"id": "main"}})
+    into = [v for kk, v in seen if kk == "metadata into"]
+    ok = bool(ps) and all(p.result[0] == "return" for p in ps) and into and all(v == Obj("NEWCP") for v in into) and all(p.final_store.get("self.metadata") == {"id": "main"} for p in ps)
+    rep.check(ok, rid, f"{fi.file}::CsvPath.parse_named_path keeps the imported csvpath's comment to itself",
+              f"the named csvpath's comment is collected into {into or 'nothing'} (results {[p.result for p in ps][:2]}); documented: into the CsvPath created for it — collected into "
+              "the importing csvpath it would replace that csvpath's id, description and mode settings", K.where(fi, fi.node))
